@@ -26,6 +26,7 @@ CATALOGUE = {
     'empty-list': EITHER, 'ics': MUST_RAISE, 'ocs': MUST_RAISE, 'sul-seq': MUST_RAISE, 'sul-id-long': MUST_RAISE,
     'hdr-id-long': MUST_RAISE, 'dtime-range': MUST_RAISE, 'vrl-invalid': MUST_RAISE, 'hdr-seq': MUST_RAISE,
     'hdr-ident': MUST_RAISE, 'uvari-nonint': MUST_RAISE, 'sul-field-set-later': MUST_RAISE,
+    'int-range-list': MUST_RAISE, 'dup-channel-name-in-frame': EITHER,
 }
 
 
@@ -63,6 +64,12 @@ def invalidation(draw):
         inv['v'] = draw(st.sampled_from([-1, -12, 10000, 123456]))
     elif k == 'dtime-range':
         inv['year'] = draw(st.sampled_from([1850, 1899, 2156, 2300]))
+    elif k == 'int-range-list':
+        inv['n'] = draw(st.sampled_from([1, 2, 7, 8, 9, 20]))
+        inv['where'] = draw(st.sampled_from(['axis-coordinates', 'parameter-values', 'parameter-dimension',
+                                             'comment-none']))
+        inv['bad'] = draw(st.sampled_from([2 ** 31, 3_000_000_000, -2 ** 31 - 1, 2 ** 40]))
+        inv['at'] = draw(st.integers(0, 19))
     elif k == 'sul-field-set-later':
         inv['field'], inv['v'] = draw(st.sampled_from([('set_identifier', 'X' * 61), ('set_identifier', 'Y' * 200),
                                                       ('sequence_number', 10000), ('sequence_number', 123456),
@@ -226,6 +233,27 @@ def apply(spec, inv):
         spec['sul']['id'] = _txt(61 + sel % 5)
     elif k == 'dtime-range':
         ops[origins[0]]['attrs']['creation_time'] = {'v': {'$dt': f"{inv['year']}-06-15T12:00:00", 'tz': 0}, 'r': 'kw'}
+    elif k == 'int-range-list':
+        vals = list(range(inv['n']))
+        vals[inv['at'] % inv['n']] = inv['bad']
+        if inv['where'] == 'axis-coordinates':
+            ops.append({'t': 'axis', 'name': 'AX-BIG', 'attrs': {'coordinates': {'v': vals, 'r': 'kw'}}})
+        elif inv['where'] == 'parameter-values':
+            ops.append({'t': 'zone', 'name': 'ZB', 'attrs': {}})
+            ops.append({'t': 'parameter', 'name': 'P-BIG', 'attrs': {
+                'zones': {'v': [{'$ref': len(ops) - 1}], 'r': 'kw'}, 'values': {'v': [vals], 'r': 'kw'}}})
+        else:
+            dims = [d % 5 + 1 for d in range(inv['n'])]
+            dims[inv['at'] % inv['n']] = 2 ** 30 + abs(inv['bad']) % 1000
+            ops.append({'t': 'parameter', 'name': 'P-DIM', 'attrs': {'dimension': {'v': dims, 'r': 'kw'}}})
+    elif k == 'dup-channel-name-in-frame':
+        f = ops[frames[sel % len(frames)]]
+        refs = [r['$ref'] for r in f['attrs']['channels']['v']]
+        src = ops[refs[0]]
+        new_op = {'t': 'channel', 'name': src['name'], 'data': dict(src['data']), 'attrs': {}}
+        if src.get('set') is not None:
+            new_op['set'] = src['set']
+        raise _Restructure('dup-channel', frames[sel % len(frames)], new_op)
     elif k == 'vrl-invalid':
         spec['sul']['vrl'] = inv['v']
     elif k == 'sul-field-set-later':
@@ -274,13 +302,13 @@ def _strip_refs_all(lf):
     lf['ops'] = keep
 
 
-def add_second_channel(spec, frame_index, rows):
+def add_second_channel(spec, frame_index, rows, new_op=None):
     lf = spec['lfs'][0]
     ops = [op for op in lf['ops'] if op is not None]
     # rebuild with a new channel appended at the end and referenced by the frame; indices of earlier ops unchanged
     lf['ops'] = ops
     fidx = frame_index
-    new = {'t': 'channel', 'name': 'ODD-ROWS', 'data': {'dt': '<f4', 'shape': [rows], 'pat': [5, 2]}, 'attrs': {}}
+    new = new_op or {'t': 'channel', 'name': 'ODD-ROWS', 'data': {'dt': '<f4', 'shape': [rows], 'pat': [5, 2]}, 'attrs': {}}
     # the channel must exist before the frame: move the frame to the end
     f = ops.pop(fidx)
 
@@ -362,8 +390,11 @@ class C12(Property):
             try:
                 apply(spec, inv)
             except _Restructure as rs:
-                _, fidx, rows = rs.args
-                add_second_channel(spec, fidx, rows)
+                what, fidx, arg = rs.args
+                if what == 'dup-channel':
+                    add_second_channel(spec, fidx, None, new_op=arg)
+                else:
+                    add_second_channel(spec, fidx, arg)
             except (IndexError, ZeroDivisionError, KeyError, ValueError, TypeError, AttributeError):
                 continue       # an earlier invalidation removed what this one needs
             kinds.append(inv['k'] + (':' + str(inv.get('pos') or inv.get('how')) if any(x in inv for x in ('pos', 'how'))
